@@ -43,6 +43,8 @@ extern void (*p_kill_hook)(int pid, int sig);	/* kill() on a child pid */
 extern void (*p_exec_hook)(const char *file);	/* execvp in a child copy */
 extern void (*p_child_hook)(int pid);		/* called in the parent after fork */
 extern int p_fork_fail;
+extern void (*p_delivery_done_hook)(int tid, int sig);
+extern void (*p_delivery_hook)(int tid, int sig);	/* a handler is about to run in thread tid */
 
 int p_signal_deliverable(void);			/* current thread has an unblocked pending signal */
 int p_deliver_signals(void);			/* run handlers for them; returns how many ran */
